@@ -87,3 +87,88 @@ def range_index(max_step=6):
         res["inconclusive"].append("vacuous")
     res["reached"] = reached
     return res
+
+
+def dict_index_framing():
+    """writer.encode_dict header  vs  the self-made fast path of core.read_data_page (bit widths 8/16/32):
+    writer emits varint(<expr of len(data)>) followed by len(data) items; reader takes num = (<varint> >> 1) * 8
+    items and keeps the first len(data).  For every n in [0, 2^31): the header is a bit-packed header (low bit 1),
+    num >= n (all indices are covered) and num - n < 8 (only padding of the last group is claimed beyond them), and
+    the byte count requested, num * bit_width // 8, is a whole number of items."""
+    import fastparquet.writer as writer
+    import fastparquet.core as core
+    res = _res("lemma.dict_index_framing[encode_dict/read_data_page]",
+               ["writer.encode_dict", "core.read_data_page (selfmade fast path)"], {})
+    wt = astz3.func_ast(writer.encode_dict)
+    rt_ = astz3.func_ast(core.read_data_page)
+    try:
+        cnt = astz3.find_assign(wt, "bit_packed_count")
+        calls = astz3.find_calls(wt, "encode_unsigned_varint")
+        nums = astz3.find_assign(rt_, "num")
+        reads = [c for c in astz3.find_calls(rt_, "read") if c.args and "num" in ast_names(c.args[0])]
+        if len(cnt) != 1 or len(calls) != 1 or len(nums) != 1 or len(reads) != 1:
+            raise astz3.Untranslatable("expected one bit_packed_count / encode_unsigned_varint / num / read(num..) "
+                                       "site, found %d/%d/%d/%d" % (len(cnt), len(calls), len(nums), len(reads)))
+        n = z3.BitVec("n", 64)
+        s = z3.Solver()
+        s.set("timeout", 30000)
+        s.add(z3.ULT(n, z3.BitVecVal(1 << 31, 64)))
+        env = {"call:len": n}
+        count = astz3.tr_bv(cnt[0], env)
+        header = astz3.tr_bv(calls[0].args[0], dict(env, bit_packed_count=count))
+        num = astz3.tr_bv(nums[0], {"call:encoding.read_unsigned_var_int": header})
+        if _check(res, s) != "sat":
+            raise astz3.Untranslatable("vacuous")
+        bad = [header & 1 != 1, z3.ULT(num, n), z3.UGE(num - n, 8)]
+        for bw in (8, 16, 32):
+            nbytes = astz3.tr_bv(reads[0].args[0], {"num": num, "bit_width": z3.BitVecVal(bw, 64)})
+            bad.append(z3.URem(nbytes, bw // 8) != 0)
+            bad.append(nbytes != num * (bw // 8))
+        r = _check(res, s, z3.Or(*bad))
+        if r == "sat":
+            m = s.model()
+            nv = m.eval(n, model_completion=True).as_long()
+            res["status"] = "violation"
+            res["findings"].append(dict(
+                kind="contract", function="encode_dict/read_data_page", obligation="index framing agrees",
+                detail="for %d dictionary indices the header announces %d items" % (
+                    nv, m.eval(num, model_completion=True).as_long()),
+                shape=dict(harness="lemma.dict_index_framing"), cls="lemma:dict_index_framing",
+                witness=dict(driver="py:vf.pyshim.lemmas:replay_dict_index_framing", args=dict(n=nv))))
+        elif r == "unknown":
+            res["status"] = "inconclusive"
+            res["inconclusive"].append("solver unknown")
+        res["reached"] = 1
+    except astz3.Untranslatable as ex:
+        res["status"] = "error"
+        res["error"] = "cannot lift the framing expressions: %s" % ex
+    return res
+
+
+def ast_names(node):
+    import ast as _ast
+    return {x.id for x in _ast.walk(node) if isinstance(x, _ast.Name)}
+
+
+def replay_dict_index_framing(n):
+    """categorical column with n rows written and read back by the real API (v1 pages, int8 codes)"""
+    import os, shutil, tempfile
+    import numpy as np
+    import pandas as pd
+    import fastparquet
+    if n > 3000000 or n < 1:
+        return None, "row count outside the concrete driver"
+    df = pd.DataFrame({"c": pd.Categorical.from_codes(np.arange(n) % 3, categories=["a", "b", "c"])})
+    d = tempfile.mkdtemp(prefix="c01-")
+    try:
+        fn = os.path.join(d, "t.parq")
+        fastparquet.write(fn, df)
+        try:
+            out = fastparquet.ParquetFile(fn).to_pandas()
+        except Exception as ex:
+            return True, "categorical column of %d rows cannot be read back: %s" % (n, ex)
+        if list(out["c"].astype(str)) != list(df["c"].astype(str)):
+            return True, "categorical column of %d rows reads back different labels" % n
+        return False, "round trip intact"
+    finally:
+        shutil.rmtree(d, ignore_errors=True)
